@@ -25,6 +25,11 @@ let events_at sched j = List.filter (fun (s, _, _) -> s = j) sched
    lateness adds up, so a wake-up can fall behind the next scripted event.  The model is therefore also run with
    longer sleeps (the same for every sleep of the run) and has to explain the observation for one of them. *)
 let pause_stretches = List.init 31 (fun i -> i)       (* extra ms per sleep *)
+(* ... and the goroutine that makes the call under test may itself start late: the call is also tried up to 60 ms
+   after its slot (only when no stretch alone explains the observation) *)
+let pause_variants =
+  List.map (fun d -> (d, 0)) pause_stretches
+  @ List.concat_map (fun cl -> List.map (fun d -> (d, cl)) [0; 5; 10; 20]) [10; 20; 30; 40; 50; 60]
 let pause_stretch cf0 d = { cf0 with cSL = nat_of_int (int_of_nat cf0.cSL + d); cGL = nat_of_int (int_of_nat cf0.cGL + d) }
 
 let () =
@@ -40,9 +45,10 @@ let () =
       let hticks = int_of_string horizon * u in
       (* the run at 1 ms resolution with sleeps [sl] ms longer than written (0, or more when the machine is busy and every
          sleep of the chain ends late) *)
-      let sim sl =
+      let sim (sl, cl) =
         let cf0 = cfg_of (n_of_int 1) (z_of_int (int_of_string tmo)) (n_of_int (int_of_string proto)) in
         let cf = pause_stretch cf0 sl in
+        let timed = List.map (fun (sl0, k, h) -> ((if k = 'C' then sl0 * u + cl else sl0 * u), k, h)) sched in
         let st = ref (rinit : n list rstate) in
         let res = ref None in
         let feed j e =
@@ -58,11 +64,10 @@ let () =
           end in
         for j = 0 to hticks do
           if j > 0 then feed j ETick;
-          if j mod u = 0 then
-            List.iter (fun (_, k, h) ->
-                feed j (match k with
-                    | 'C' -> ECall | 'A' -> EArrive (bytes_of_hex h) | 'P' -> EPause | 'R' -> EResume
-                    | 'S' -> EStop | _ -> failwith "kind")) (events_at sched (j / u))
+          List.iter (fun (_, k, h) ->
+              feed j (match k with
+                  | 'C' -> ECall | 'A' -> EArrive (bytes_of_hex h) | 'P' -> EPause | 'R' -> EResume
+                  | 'S' -> EStop | _ -> failwith "kind")) (events_at timed j)
         done;
         match !res with None -> ("none", false, "-", -1) | Some r -> r in
       let show (pc, pp, pl, pj) = Printf.sprintf "%s:%s:%s:%d" pc (str_of_bool pp) pl pj in
@@ -73,16 +78,17 @@ let () =
          mc = pc && (mc = "none" || (mp = str_of_bool pp && ml = pl && dt <= int_of_string tol))
        | _ -> false in
       let obs = String.split_on_char '|' measured in
-      if List.exists (fun sl -> let p = sim sl in List.exists (ok p) obs) pause_stretches then "match"
-      else "pred=" ^ show (sim 0)
+      if List.exists (fun v -> let p = sim v in List.exists (ok p) obs) pause_variants then "match"
+      else "pred=" ^ show (sim (0, 0))
     | _ -> "?args");
   register "pm_gate" (function [u; proto; horizon; sched; measured; tol] ->
       let u = int_of_string u in
       let sched = parse_sched sched in
       let hticks = int_of_string horizon * u in
-      let sim sl =
+      let sim (sl, cl) =
         let cf0 = cfg_of (n_of_int 1) (z_of_int 1) (n_of_int (int_of_string proto)) in
         let cf = pause_stretch cf0 sl in
+        let timed = List.map (fun (sl0, k, h) -> ((if k = 'C' then sl0 * u + cl else sl0 * u), k, h)) sched in
         let st = ref { s_pausing = false; s_stopped = false; s_ph = SIdle } in
         let keeps = ref 0 in
         let keeps_at = Array.make (hticks + 1) 0 in
@@ -100,12 +106,11 @@ let () =
           end in
         for j = 0 to hticks do
           if j > 0 then feed j STick;
-          if j mod u = 0 then
-            List.iter (fun (_, k, _) ->
-                (match k with 'C' -> called := true | _ -> ());
-                feed j (match k with
-                    | 'C' -> SCall | 'P' -> SPauseEv | 'R' -> SResumeEv | 'S' -> SStopEv | _ -> failwith "kind"))
-              (events_at sched (j / u));
+          List.iter (fun (_, k, _) ->
+              (match k with 'C' -> called := true | _ -> ());
+              feed j (match k with
+                  | 'C' -> SCall | 'P' -> SPauseEv | 'R' -> SResumeEv | 'S' -> SStopEv | _ -> failwith "kind"))
+            (events_at timed j);
           keeps_at.(j) <- !keeps
         done;
         let (pc, pj) = match !res with None -> ("none", -1) | Some r -> r in
@@ -120,8 +125,8 @@ let () =
          mc = pc && (if mc = "none" then !late else int_of_string mk = k && dt <= int_of_string tol)
        | _ -> false in
       let obs = String.split_on_char '|' measured in
-      if List.exists (fun sl -> let p = sim sl in List.exists (ok p) obs) pause_stretches then "match"
-      else "pred=" ^ show (sim 0)
+      if List.exists (fun v -> let p = sim v in List.exists (ok p) obs) pause_variants then "match"
+      else "pred=" ^ show (sim (0, 0))
     | _ -> "?args")
 
 (* pc_sim T SL GL n W P events : runs the composition with the real reader machines (cstep) and the
